@@ -163,6 +163,7 @@ type PointInfo struct {
 	CurEnabled bool  // choosing another thread than Enabled[0] costs a preemption
 	Key        H     // state signature (happens-before signature + scheduler state)
 	Step       int
+	Choice     int   // > 0: not a thread choice but an environment choice among Choice alternatives (Enabled = 1..Choice)
 }
 
 type Exec struct {
@@ -972,6 +973,32 @@ func trimStack(s string) string {
 func Exiting() bool {
 	x := X
 	return x != nil && x.aborting
+}
+
+// Choose asks the strategy for an environment answer in 0..n-1 on behalf of the running thread
+// (e.g. which of several ready select cases fires). All answers are explored; picking another
+// answer than 0 costs no preemption.
+func Choose(n int) int {
+	x := X
+	if n <= 1 || x == nil || x.cur == nil || x.aborting || x.Strategy == nil {
+		return 0
+	}
+	t := x.cur
+	en := make([]int, n)
+	for i := range en {
+		en[i] = i + 1
+	}
+	p := PointInfo{Enabled: en, CurEnabled: false, Step: x.steps, Choice: n}
+	p.Key = x.stateKey(t).Mix(0xc401ce, uint64(n))
+	idx := x.Strategy(&p)
+	if idx < 0 {
+		x.Pruned = true
+		x.aborting = true
+		x.wakeCtrl()
+		t.exitNow()
+	}
+	t.sig = t.sig.Mix(0xc401ce, uint64(idx))
+	return idx
 }
 
 // InStep runs f as part of the step the running thread has just been granted: scheduling points
